@@ -100,6 +100,12 @@ class Run(object):
           continue
         if d == 'none':
           continue
+        if d == 'iA':
+          # an *internal* diagnosis of result A: on the phase record and in the store that conditions consult, but
+          # not among the test record's diagnoses
+          diag.append('A')
+          self.store.add('A')
+          continue
         is_f = d.startswith('F')
         (fdiag if is_f else diag).append(d)
         self.diagnoses.append((d, is_f))
